@@ -66,7 +66,7 @@ MANIFEST_ENTRY = dict(
     level="model_checking", design="DESIGN.md section 4 / C20",
     technique="explicit-state BFS over operation histories on a population of model objects vs a per-variant reference state, differential oracle against fresh models built from source, bit-exact isolation check, structural alias scan; exhaustive enumeration of a model grammar for the portable round trip",
     text="For a linear Simultaneous model (lead, measurement equation with shock), a non-linear one (log variable), a Sequential and a RedVAR, every history of copy / pickle / dill / assign (scalar, per-variant list, std) / alter_num_variants(1..3) / steady / solve / set_description / override_tolerance / estimate / assignment through model[k] up to depth 3 (quick) or 4-5 (thorough) from 2-4 prepared initial objects on a population of up to 3 objects is executed against the real classes; before and after every step every object is observed (flags, tolerance settings, names, equations, parameters, steady levels and changes, solution matrices T P K Z H D, eigenvalues and their stable/unit/unstable classification, a 4-period first-order simulation with an unanticipated and an anticipated shock, a 3-period Kalman likelihood); the acted-on object must equal fresh single-variant models driven to the reference state, clones must be observation-identical to their source, untouched objects bit-for-bit unchanged, and no dict / list / set / ndarray / instance __dict__ may be reachable from two members or two variants. The portable and binary file round trips are enumerated over 96 programs x 8 flag combinations x 3 (quick) or 6 (thorough) variant/steady settings.",
-    note="Trusted: model construction from source (the oracle is differential), numpy, the reference state machine in props/c20.py. Not covered: user functions in the model context, stacked-time simulation, attributes of quantities/equations and steady levels in the portable form (not in the statement), isolation of model views (model[k] shares the variant object by design; recorded, not gated). Known findings: to_portable with a transition shock, from_portable flags, pickle of a Sequential, RedVAR.copy sharing its invariant and cached companion matrix.")
+    note="Trusted: model construction from source (the oracle is differential), numpy, the reference state machine in props/c20.py. Not covered: user functions in the model context, stacked-time simulation, attributes of quantities/equations and steady levels in the portable form (not in the statement), isolation of model views (model[k] shares the variant object by design; recorded, not gated). The defects found here (to_portable with a transition shock, from_portable twins and flags, pickle of a Sequential, RedVAR.copy sharing its invariant and cached companion matrix) were repaired in /repo (DESIGN.md 9.3).")
 ASSUMPTIONS = [
     "a model built from source and driven by assign/steady/solve is the specification of what a copy in the same reference state must compute (differential oracle)",
     "the non-linear steady state is unique, so steady() from different starting points agrees to 1e-8",
